@@ -1,7 +1,7 @@
 SPECIFICATION Spec
 CONSTANTS
-  MaxOut = 2
-  MaxFlaps = 2
+  MaxOut = 1
+  MaxFlaps = 1
   MaxCrashes = 1
   ClientOps = {"cancel", "release", "frelease"}
   RestartIfIdKnown = FALSE
